@@ -235,8 +235,12 @@ func zzH_C06_earlier() {
 	}
 	second := zzMakeTrigger(zzClone6(firstBuf[:cut]), true)
 	det := newTrzszDetector(false, false)
-	_, trig := det.detectTrzsz(second.buf, false)
+	out, trig := det.detectTrzsz(second.buf, false)
 	zzCheckTrigger(trig, second)
+	// what is shown locally must not make a second wrapper start anything, earlier trigger text included
+	det2 := newTrzszDetector(false, false)
+	_, trig2 := det2.detectTrzsz(zzClone6(out), false)
+	verifAssert(trig2 == nil, "local rendering still triggers a second wrapper")
 	verifReach("earlier")
 }
 
